@@ -546,13 +546,15 @@ pub fn point(kind: u8, var: usize, ord: Ordering) {
         if ST::quiet {
             return;
         }
-        ST::ops[kind as usize] += 1;
+        // (wrapping: a native replay of code that spins forever must hang, not
+        // die of a counter overflow)
+        ST::ops[kind as usize] = ST::ops[kind as usize].wrapping_add(1);
         if (ST::nest_depth as usize) < 4 {
-            ST::ops_by_depth[ST::nest_depth as usize] += 1;
+            ST::ops_by_depth[ST::nest_depth as usize] = ST::ops_by_depth[ST::nest_depth as usize].wrapping_add(1);
         }
         if ST::delivery_depth > 0 {
-            ST::ops_in_delivery[kind as usize] += 1;
-            ST::cur_delivery_ops += 1;
+            ST::ops_in_delivery[kind as usize] = ST::ops_in_delivery[kind as usize].wrapping_add(1);
+            ST::cur_delivery_ops = ST::cur_delivery_ops.wrapping_add(1);
         }
         if ST::require_seqcst && kind != OP_CELL && kind != OP_SYS {
             match ord {
